@@ -9,6 +9,7 @@ import (
 	"github.com/cosmos/ibc-go/v3/modules/core/exported"
 	"github.com/ethereum/go-ethereum/common"
 
+	teletypes "github.com/teleport-network/teleport/types"
 	"github.com/teleport-network/teleport/x/aggregate/types"
 
 	transfertypes "github.com/cosmos/ibc-go/v3/modules/apps/transfer/types"
@@ -33,14 +34,14 @@ func (k Keeper) OnRecvPacket(
 	if err := transfertypes.ModuleCdc.UnmarshalJSON(packet.GetData(), &data); err != nil {
 		event.Status = types.STATUS_FAILED
 		event.Message = err.Error()
-		_ = ctx.EventManager().EmitTypedEvent(event)
+		_ = teletypes.EmitTypedEvent(ctx, event)
 		return nil
 	}
 	transferAmount, ok := sdk.NewIntFromString(data.Amount)
 	if !ok {
 		event.Status = types.STATUS_FAILED
 		event.Message = "Change data.Amount type to int error"
-		_ = ctx.EventManager().EmitTypedEvent(event)
+		_ = teletypes.EmitTypedEvent(ctx, event)
 		return nil
 	}
 	receiver, _ := sdk.AccAddressFromBech32(data.Receiver)
@@ -48,14 +49,14 @@ func (k Keeper) OnRecvPacket(
 	if err != nil {
 		event.Status = types.STATUS_FAILED
 		event.Message = err.Error()
-		_ = ctx.EventManager().EmitTypedEvent(event)
+		_ = teletypes.EmitTypedEvent(ctx, event)
 		return nil
 	}
 
 	if !k.IsDenomRegistered(ctx, denom) {
 		event.Status = types.STATUS_FAILED
 		event.Message = fmt.Sprintf("denom %s not registered", denom)
-		_ = ctx.EventManager().EmitTypedEvent(event)
+		_ = teletypes.EmitTypedEvent(ctx, event)
 		return nil
 	}
 	msg := types.NewMsgConvertCoin(
@@ -69,14 +70,14 @@ func (k Keeper) OnRecvPacket(
 	if err != nil {
 		event.Status = types.STATUS_FAILED
 		event.Message = err.Error()
-		_ = ctx.EventManager().EmitTypedEvent(event)
+		_ = teletypes.EmitTypedEvent(ctx, event)
 		return nil
 	}
 
 	write()
 	ctx.EventManager().EmitEvents(cctx.EventManager().Events())
 	event.Status = types.STATUS_SUCCESS
-	_ = ctx.EventManager().EmitTypedEvent(event)
+	_ = teletypes.EmitTypedEvent(ctx, event)
 	return nil
 }
 
